@@ -101,7 +101,8 @@ CLAIMS = {
         text="Width table only: one insertion step from every table state of the bounded family (first_char 0..5, 0..3 entries, "
              "code 0..8; entries, default and width symbolic) sets exactly the inserted code and leaves every other code unchanged, "
              "hence insertion order cannot matter; get() is the simple-font rule for every first_char/code in usize; one array-form "
-             "/W group applied as Font::widths applies it (ensure_cid, then set per element) on 6 concrete table/group shapes. "
+             "/W group applied as Font::widths applies it (ensure_cid, then set per element) and one range-form group (set per code), each on "
+             "6 concrete table/group shapes. "
              "ToUnicode: only the code tokens -- write_cid writes '<HHHH>' for every u16, parse_cid reads 1- and 2-byte codes big "
              "endian. /W array interpretation inside Font::widths and character maps at map level (write_cmap, parse_cmap) are Out.",
         design_ref="§5 C19", note=NOTE, technique=BMC),
